@@ -150,7 +150,15 @@ func (n *OPNode) login(w http.ResponseWriter, r *http.Request, callback func(con
 	}
 	issuer := n.Config.Issuer
 	if n.Config.IssuerMode == "host" || n.Config.IssuerMode == "forwarded" {
-		issuer = "https://" + r.Host + n.Config.IssuerPath
+		host := r.Host
+		if n.Config.IssuerMode == "forwarded" {
+			for _, part := range strings.Split(r.Header.Get("Forwarded"), ";") {
+				if v, ok := strings.CutPrefix(strings.TrimSpace(part), "host="); ok {
+					host = v
+				}
+			}
+		}
+		issuer = "https://" + host + n.Config.IssuerPath
 	}
 	http.Redirect(w, r, n.Provider.AuthorizationEndpoint().Absolute(issuer)+"/callback?id="+id, http.StatusFound)
 }
